@@ -1,14 +1,26 @@
 #!/venv/bin/python
 """C06 - subgraph matching is sound, complete and symmetry-reduced.
 
-Reference model: lean/VermouthModel/Iso.lean (shared) + C06.lean; theorems:
-lean/VermouthProps/C06.lean.  ISMAGS is NOT transcribed: the real
-vermouth.ismags.ISMAGS is compared with the verified reference enumerator /
-class checker / MCIS through the driver, and an independent Python brute
-force (different algorithm for the classes: canonical representatives) states
-the property on every real result.
+Two layers (see harness/manifest_parts/C06.json):
 
-Queries (one protocol line each, the real output is part of the `sym`/`lcssym` lines):
+(1) TRANSCRIPTION of the search core of vermouth/ismags.py: lean/VermouthModel/C06_Ismags.lean
+    (_find_nodecolor_candidates, _get_lookahead_candidates, _edges_of_same_color, intersect, _map_nodes,
+    find_isomorphisms, _remove_node, _largest_common_subgraph, largest_common_subgraph, _make_constraints),
+    theorems lean/VermouthProps/C06_Ismags.lean, C06_IsmagsLcs.lean, C06_IsmagsSym.lean.  Tie = output for output:
+      tcand   _find_nodecolor_candidates() / _get_lookahead_candidates() of a fresh matcher
+      tiso0/1 find_isomorphisms(symmetry=False/True): the model is fed the constraints the real call made (recorded by
+              wrapping _make_constraints); outputs compared as SORTED lists with multiplicity (the yield order depends on
+              CPython's set iteration order, which the model does not reproduce)
+      tlcs0/1 largest_common_subgraph(symmetry=False/True), constraints in the iteration order of the real set object
+      tcons   _make_constraints on the cosets the real call used
+      tvalid  the constraints of the real call are the stabiliser-chain orbits of the pattern (verified checker
+              constraintsValidB = hypothesis of theorem ismags_find_one_per_class); analyze_symmetry itself is NOT transcribed
+(2) Verified REFERENCE lean/VermouthModel/Iso.lean (shared) + C06.lean; theorems lean/VermouthProps/C06.lean: the real
+    vermouth.ismags.ISMAGS is compared with the reference enumerator / class checker / MCIS through the driver, and an
+    independent Python brute force (different algorithm for the classes: canonical representatives) states the property
+    on every real result.
+
+Reference queries (one protocol line each, the real output is part of the `sym`/`lcssym` lines):
   iso    find_isomorphisms(symmetry=False)        == allIsos (as sorted lists)
   sym    find_isomorphisms(symmetry=True)         oneRepPerClass out (allIsos) = true
   lcs    largest_common_subgraph(symmetry=False)  == allMCIS
@@ -19,7 +31,7 @@ Queries (one protocol line each, the real output is part of the `sym`/`lcssym` l
 Besides single calls on fresh matchers there are HISTORIES (the property is about every call):
 several calls in random order on one matcher object, and matchers for several pairs that share
 one symmetry `cache` dict (as repair_graph shares it across residues); every answer in a history
-is compared with the reference exactly as if it had been computed alone.
+is compared with the reference and with the transcription exactly as if it had been computed alone.
 """
 import itertools
 from common import *
@@ -56,9 +68,10 @@ chk.extra['rule'] = ('graph pairs: exhaustive small graphs (graph atlas, random 
                      'random sparse pairs for the common-subgraph search, corpus; call histories (2-5 calls on one matcher object; 2-4 matchers sharing one symmetry cache with patterns of equal keys/edges/label-class sizes); node keys non-contiguous, 1-3 '
                      'node colours, 1-2 edge colours. A case is non-trivial if the pattern has >= 3 nodes and '
                      '(>= 1 isomorphism / common subgraph of >= 2 nodes was found or |Aut(pattern)| > 1); '
-                     'distinct = distinct protocol line')
+                     'distinct = distinct protocol line. Every call is also replayed on the TRANSCRIPTION (ops tcand/tiso/tlcs/tcons/tvalid) with the constraints the real call made')
 chk.trusted.append('harness/c06.py: graph encoding, canonicalisation of mappings, Python brute-force oracle')
-chk.lean(['VermouthProps.C06'], 'driver_c06')
+chk.lean(['VermouthProps.C06_All'], 'driver_c06')
+chk.extra['lean_build_and_audit_s'] = round(chk.elapsed(), 1)
 
 import networkx as nx
 from vermouth.ismags import ISMAGS
@@ -203,6 +216,29 @@ def coset_product(ism, sg):
 lines, pending = [], []
 
 
+class ConstraintRecorder:
+    """records what ISMAGS._make_constraints returns during one call of the real code (the constraints the
+    search really uses, also when the cosets come from a shared symmetry cache), in the iteration order of
+    that very set object (the order `_remove_node` walks it in)"""
+
+    def __init__(self, ism):
+        self.value = None
+        self.cosets = None
+        ism._make_constraints = self
+
+    def __call__(self, cosets):
+        res = ISMAGS._make_constraints(cosets)
+        self.cosets = [[k, sorted(v)] for k, v in cosets.items()]
+        self.value = res
+        return res
+
+    def take(self):
+        """[[low, high], ...] in set-iteration order; [] when the call made no constraints (symmetry=False)"""
+        v, self.value = self.value, None
+        return [list(c) for c in v] if v is not None else []
+
+
+
 def add(cid, ln, impl, errs, nontriv, finding=None):
     lines.append(ln)
     pending.append((cid, ln, impl, errs, nontriv, finding))
@@ -223,6 +259,8 @@ class Pair:
         self.auts_maps = [dict(zip(self.order, a)) for a in self.auts]
         self.naut = len(self.auts)
         self._full = self._mcis = None
+        ecols = {d.get('c', 0) for _, _, d in g.edges(data=True)} | {d.get('c', 0) for _, _, d in sg.edges(data=True)}
+        self.edge_none = 0 if (len(ecols) > 1 or explicit) else 1   # matcher() passes edge_match=None
 
     def full(self):
         if self._full is None:
@@ -258,12 +296,17 @@ def call_iso(cid, P, ism, symmetry, alias=False, ctx=''):
     fullset = set(full)
     nontriv = len(sg) >= 3 and (len(full) >= 1 or naut > 1)
     errs = []
+    rec = ConstraintRecorder(ism)
+    calls = CallRecorder(ism, False)
     try:
         it = ism.subgraph_isomorphisms_iter(symmetry=symmetry) if alias else ism.find_isomorphisms(symmetry=symmetry)
         raw = list(it)
     except Exception as e:  # noqa
         raw = []
         errs.append('exception %s: %s' % (type(e).__name__, e))
+    cosets_used = rec.cosets
+    cons = rec.take()
+    choices = calls.take()
     out = []
     for d in raw:
         inv = {s: t for t, s in d.items()}
@@ -327,6 +370,27 @@ def call_iso(cid, P, ism, symmetry, alias=False, ctx=''):
         impl = 'classes=%d ok' % len(out)
         add('%s-sym' % cid, line('sym', P.gn, P.ge, P.sn, P.se, [list(m) for m in out]), impl,
             [ctx + e for e in errs], nontriv, finding)
+        if cosets_used is not None:
+            # _make_constraints: transcription on the cosets the real code used
+            add('%s-tcons' % cid, line('tcons', cosets_used), enc(sorted(cons)), [], nontriv and bool(cons))
+            chk.count('constraints=%s' % (len(cons) if len(cons) <= 2 else '3-6' if len(cons) <= 6 else '>6'))
+            if any(lo >= hi for lo, hi in cons):
+                chk.count('constraint_not_low_lt_high')
+            # hypothesis constraintsValidB of theorem ismags_find_one_per_class: the constraints analyze_symmetry +
+            # _make_constraints delivered are exactly the stabiliser-chain orbits of the pattern (verified checker)
+            add('%s-tvalid' % cid, line('tvalid', P.sn, P.se, sorted(cons)), '1', [], nontriv and P.naut > 1)
+            # hypothesis antisymB of theorem ismags_find_exact on the constraints the real code made
+            cset = {tuple(c) for c in cons}
+            chk.count('hyp_antisymB=%s' % all((hi, lo) not in cset for lo, hi in cset))
+    # the TRANSCRIPTION of find_isomorphisms/_map_nodes (C06_Ismags.lean) with the constraints the real
+    # call used must yield the same mappings with the same multiplicities (sorted: the yield order depends
+    # on CPython's set iteration order)
+    add('%s-tiso%d' % (cid, int(symmetry)), line('tiso', P.edge_none, P.gn, P.ge, P.sn, P.se, cons),
+        enc([list(m) for m in sorted(out)]), [], nontriv)
+    if choices is not None:
+        # ... and, replayed with the next-node choices recorded from the real run, in the same ORDER
+        add('%s-qiso%d' % (cid, int(symmetry)), line('qiso', P.edge_none, P.gn, P.ge, P.sn, P.se, cons) + ' ' + choices,
+            enc([list(m) for m in out]), [], nontriv)
 
 
 def call_lcs(cid, P, ism, symmetry, ctx=''):
@@ -336,11 +400,15 @@ def call_lcs(cid, P, ism, symmetry, ctx=''):
     nontriv = len(sg) >= 3 and (k >= 2 or naut > 1)
     pos = {p: i for i, p in enumerate(order)}
     errs = []
+    rec = ConstraintRecorder(ism)
+    calls = CallRecorder(ism, True)
     try:
         raw = list(ism.largest_common_subgraph(symmetry=symmetry))
     except Exception as e:  # noqa
         raw = []
         errs.append('exception %s: %s' % (type(e).__name__, e))
+    cons = rec.take()
+    choices = calls.take()
     out = []
     for d in raw:
         inv = {s: t for t, s in d.items()}
@@ -348,6 +416,16 @@ def call_lcs(cid, P, ism, symmetry, ctx=''):
         if why:
             errs.append('yielded mapping is not a common induced subgraph (%s): %r' % (why, d))
         out.append(tuple(sorted(inv.items(), key=lambda x: pos.get(x[0], -1))))
+    # TRANSCRIPTION of largest_common_subgraph/_largest_common_subgraph/_remove_node with the constraints of
+    # the real call, in the iteration order of the real constraints set: same mappings, same multiplicities
+    add('%s-tlcs%d' % (cid, int(symmetry)), line('tlcs', P.gn, P.ge, P.sn, P.se, cons),
+        enc([[list(pt) for pt in m] for m in sorted(out, key=lambda m: [x for pt in m for x in pt])]), [], nontriv)
+    if symmetry and len(sg) and len(g):
+        # hypothesis constraintsValidB of theorem ismags_lcs_sym_cover on the constraints of this call
+        add('%s-tvalid' % cid, line('tvalid', P.sn, P.se, sorted(cons)), '1', [], nontriv and naut > 1)
+    if choices is not None:
+        add('%s-qlcs%d' % (cid, int(symmetry)), line('qlcs', P.gn, P.ge, P.sn, P.se, cons) + ' ' + choices,
+            enc([[list(pt) for pt in m] for m in out]), [], nontriv)
     if not out:
         # nothing in common is reported as "no result"; the reference reports the empty map
         chk.count('lcs_no_result')
@@ -377,6 +455,71 @@ def call_lcs(cid, P, ism, symmetry, ctx=''):
             impl, errs, nontriv)
 
 
+REC_CAP = 1500
+
+
+class CallRecorder:
+    """records, for every call of the real ISMAGS._map_nodes during one call of the matcher, the search node
+    (mapping made so far, nodes left to map) and the pattern node the call was started with: the outcome of the
+    code's `min(left_to_map, key=...)`, which depends on CPython's set iteration order.  The driver replays the
+    transcription with these choices (each checked to be a possible result of that min) and the yield
+    SEQUENCES are compared."""
+
+    def __init__(self, ism, with_left):
+        self.rec = []
+        self.n = 0
+        self.with_left = with_left
+        self.orig = ISMAGS._map_nodes.__get__(ism)
+        ism._map_nodes = self
+
+    def __call__(self, sgn, candidates, constraints, mapping=None, to_be_mapped=None):
+        self.n += 1
+        if self.n <= REC_CAP:
+            self.rec.append((tuple(mapping.items()) if mapping else (), to_be_mapped, sgn))
+        return self.orig(sgn, candidates, constraints, mapping=mapping, to_be_mapped=to_be_mapped)
+
+    def take(self):
+        """the records as one protocol token (encoded here: they are the bulk of the protocol), or None when there
+        were more than REC_CAP calls.  A record is [mapping, left, sgn]; `left` is omitted when to_be_mapped was
+        not wanted (find_isomorphisms: to_be_mapped is always the whole pattern)."""
+        if self.n > REC_CAP:
+            chk.count('recorded_run_skipped_cap')
+            return None
+        chk.count('recorded_choices', self.n)
+        if not self.rec:
+            return '[ ]'
+        parts = []
+        for m, tbm, sgn in self.rec:
+            ms = '[ ' + ' '.join(['[ %d %d ]' % kv for kv in sorted(m)]) + ' ]' if m else '[ ]'
+            if not self.with_left:
+                parts.append('[ %s %d ]' % (ms, sgn))
+            else:
+                keys = {k for k, _ in m}
+                left = sorted(n for n in tbm if n not in keys)
+                ls = '[ ' + ' '.join(map(str, left)) + ' ]' if left else '[ ]'
+                parts.append('[ %s %s %d ]' % (ms, ls, sgn))
+        return '[ ' + ' '.join(parts) + ' ]'
+
+
+def call_cand(cid, P):
+    """_find_nodecolor_candidates / _get_lookahead_candidates of a fresh matcher against their transcriptions"""
+    if not len(P.sg) or not len(P.g):
+        return
+    ism = P.matcher()
+    try:
+        nc = ism._find_nodecolor_candidates()
+        la = ism._get_lookahead_candidates()
+        impl = enc([[[sorted(s) for s in nc[u]], [sorted(la[u])] if u in la else [[]]] for u in P.order])
+    except Exception as e:  # noqa
+        impl = 'exception %s' % type(e).__name__
+    chk.count('lookahead_prunes=%s' % any(len(la.get(u, ())) < len(P.g) for u in P.order))
+    gnc = {ncol(P.g, n) for n in P.g}
+    gec = {dd.get('c', 0) for _, _, dd in P.g.edges(data=True)}
+    if any(ncol(P.sg, n) not in gnc for n in P.sg) or any(dd.get('c', 0) not in gec for _, _, dd in P.sg.edges(data=True)):
+        chk.count('pattern_colour_absent_from_graph_edgeNone=%d' % P.edge_none)   # the `except KeyError: pass` of the look-ahead
+    add('%s-tcand' % cid, line('tcand', P.edge_none, P.gn, P.ge, P.sn, P.se), impl, [], len(P.sg) >= 3)
+
+
 def call_bool(cid, P, ism, which, symmetry, ctx=''):
     """is_isomorphic / subgraph_is_isomorphic on the matcher `ism` of the pair `P`"""
     full = P.full()
@@ -384,11 +527,13 @@ def call_bool(cid, P, ism, which, symmetry, ctx=''):
         chk.count('skipped_full_cap')
         return
     errs = []
+    rec = ConstraintRecorder(ism)
     try:
         got = bool(getattr(ism, which)(symmetry=symmetry))
     except Exception as e:  # noqa
         got = None
         errs.append('exception %s: %s' % (type(e).__name__, e))
+    cons = rec.take()
     want = bool(full) and (which == 'subgraph_is_isomorphic' or len(P.g) == len(P.sg))
     if got is not None and got != want:
         errs.append('%s(symmetry=%s) returns %s although %d induced subgraph isomorphisms exist (|graph|=%d, |pattern|=%d)'
@@ -396,6 +541,9 @@ def call_bool(cid, P, ism, which, symmetry, ctx=''):
     op = 'isiso' if which == 'is_isomorphic' else 'subiso'
     add('%s-%s' % (cid, op), line(op, P.gn, P.ge, P.sn, P.se), enc(got), [ctx + e for e in errs],
         len(P.sg) >= 3 and (bool(full) or P.naut > 1))
+    # the transcribed wrapper on the transcribed find_isomorphisms, with the constraints of the real call
+    add('%s-tbool' % cid, line('tbool', 1 if which == 'is_isomorphic' else 0, P.edge_none, P.gn, P.ge, P.sn, P.se, cons),
+        enc(got), [], len(P.sg) >= 3 and (bool(full) or P.naut > 1))
 
 
 def run_pair(cid, g, sg, do_iso=True, do_lcs=False, explicit=False, alias=False):
@@ -407,6 +555,7 @@ def run_pair(cid, g, sg, do_iso=True, do_lcs=False, explicit=False, alias=False)
     naut = P.naut
     chk.count('aut=%s' % (naut if naut <= 2 else '3-6' if naut <= 6 else '7-24' if naut <= 24 else '>24'))
     chk.count('pattern_nodes=%d' % len(sg))
+    call_cand(cid, P)
     if do_iso:
         full = P.full()
         if full is None:
@@ -685,6 +834,116 @@ for i in range(N):
     sg = relabel(sg, rng)
     run_pair('sym-%d' % i, g, sg, do_iso=True, do_lcs=False, explicit=(i % 5 == 0), alias=(i % 7 == 0))
 
+# ---- disconnected / edge-coloured / node-coloured symmetric patterns, targets with several disjoint copies --------
+def coloured_component(rng):
+    """a small symmetric component with a symmetric colouring of its edges and/or nodes; returns (graph, |Aut| bound)"""
+    kind = rng.choice(['cycle', 'cycle', 'cycle', 'path', 'star', 'edge', 'node', 'tripod'])
+    G = nx.Graph()
+    if kind == 'cycle':
+        n = rng.choice([3, 4, 4, 4, 5, 6, 6])
+        G = nx.cycle_graph(n)
+        mode = rng.choice(['plain', 'alternating', 'alternating', 'block', 'one', 'nodes-alternating', 'nodes-one'])
+        for i in range(n):
+            u, v = i, (i + 1) % n
+            if mode == 'alternating':
+                G.edges[u, v]['c'] = i % 2
+            elif mode == 'block':
+                G.edges[u, v]['c'] = 0 if i < n // 2 else 1
+            elif mode == 'one':
+                G.edges[u, v]['c'] = 1 if i == 0 else 0
+        if mode == 'nodes-alternating':
+            for i in range(n):
+                G.nodes[i]['c'] = i % 2
+        elif mode == 'nodes-one':
+            G.nodes[0]['c'] = 1
+        kind += '-' + mode
+    elif kind == 'path':
+        n = rng.choice([2, 3, 3, 4])
+        G = nx.path_graph(n)
+        if rng.random() < 0.4:
+            for i in range(n - 1):
+                G.edges[i, i + 1]['c'] = 1 if i in (0, n - 2) else 0     # symmetric: the end bonds differ
+        if rng.random() < 0.3:
+            G.nodes[0]['c'] = G.nodes[n - 1]['c'] = 1
+    elif kind == 'star':
+        G = nx.star_graph(3)
+        if rng.random() < 0.5:
+            G.edges[0, 1]['c'] = 1
+    elif kind == 'tripod':
+        G = spider(3, 1)
+        for leaf in (1, 2, 3):
+            G.nodes[leaf]['c'] = 1
+    elif kind == 'edge':
+        G.add_edge(0, 1)
+    else:
+        G.add_node(0)
+    chk.count('multi_component_' + kind)
+    return G
+
+
+def multi_pattern(rng):
+    """2-3 disjoint copies of one coloured component, sometimes plus a different component; node keys interleaved"""
+    comp = coloured_component(rng)
+    while len(comp) > 5:                                    # keep the whole pattern within 10 nodes
+        comp = coloured_component(rng)
+    copies = 3 if (len(comp) <= 3 and rng.random() < 0.3) else 2
+    parts = [comp.copy() for _ in range(copies)]
+    if rng.random() < 0.35:
+        other = coloured_component(rng)
+        if len(other) + len(comp) * copies <= 10:
+            parts.append(other)
+            chk.count('multi_with_other_component')
+    P = nx.Graph()
+    k = 0
+    for part in parts:
+        m = {n: k + i for i, n in enumerate(part.nodes)}
+        P = nx.union(P, nx.relabel_nodes(part, m))
+        k += len(part)
+    return P, parts
+
+
+def multi_target(P, parts, rng):
+    g = P.copy()
+    base = max(g.nodes) + 1
+    r = rng.random()
+    if r < 0.3:
+        chk.count('multi_target_self')
+    elif r < 0.55:
+        g.add_edge(rng.choice(list(P.nodes)), base, c=rng.choice([0, 2]))       # a pendant atom
+        chk.count('multi_target_pendant')
+    elif r < 0.8:
+        extra = rng.choice(parts)                                                # one more disjoint copy
+        g = nx.union(g, nx.relabel_nodes(extra, {n: base + i for i, n in enumerate(extra.nodes)}))
+        chk.count('multi_target_extra_copy')
+    elif r < 0.9:
+        u, v = rng.sample(list(g.nodes), 2)                                      # join two components
+        if not g.has_edge(u, v):
+            g.add_edge(u, v, c=rng.randrange(2))
+        chk.count('multi_target_joined')
+    else:
+        if g.number_of_edges():
+            g.remove_edge(*rng.choice(list(g.edges)))                            # damaged: often no match
+        chk.count('multi_target_damaged')
+    return g
+
+
+rng = chk.rng('multi')
+N = 2000 if chk.thorough else 140
+_t_multi = time.time()
+_n_lines_multi = len(lines)
+for i in range(N):
+    sg, parts = multi_pattern(rng)
+    g = multi_target(sg, parts, rng)
+    if rng.random() < 0.5:
+        g = relabel(g, rng)
+        sg = relabel(sg, rng)
+    else:
+        # plain / interleaved numbering as a chemist would write it (the keys decide the order of the symmetry analysis)
+        sg = nx.relabel_nodes(sg, dict(zip(list(sg.nodes), rng.sample(range(len(sg)), len(sg)))))
+    run_pair('multi-%d' % i, g, sg, do_iso=True, do_lcs=(len(sg) <= 6 and i % 3 == 0), explicit=(i % 4 != 3), alias=(i % 7 == 0))
+chk.extra['multi_stream_s'] = round(time.time() - _t_multi, 1)
+chk.extra['multi_stream_MB'] = round(sum(len(l) for l in lines[_n_lines_multi:]) / 1e6, 1)
+
 # ---- common-subgraph search on pairs that are not contained in each other -------------
 rng = chk.rng('lcs')
 N = 2500 if chk.thorough else 500
@@ -852,7 +1111,11 @@ for i in range(N):
     run_object_history('object-%d' % i, g, sg, calls, explicit=(i % 3 == 0))
 
 # ---- model side ------------------------------------------------------------------
+_t_drv = time.time()
+chk.extra['protocol_MB'] = round(sum(len(l) for l in lines) / 1e6, 1)
 models = chk.drv.ask(lines) if chk.lean_ok else [None] * len(lines)
+chk.extra['driver_s'] = round(time.time() - _t_drv, 1)
+chk.extra['real_code_and_oracle_s'] = round(_t_drv - chk.t0, 1)
 for (cid, ln, impl, errs, nontriv, finding), mo in zip(pending, models):
     kind = cid.rsplit('-', 1)[1]
     chk.count('query_' + kind)
